@@ -179,3 +179,16 @@ Proof.
   - vm_compute. reflexivity.
   - vm_compute. reflexivity.
 Qed.
+
+(* ---- a predicate after a predicate (example) --------------------------------------------------------- *)
+Definition ch_str1 (c : N) : tree := Leaf (SStr [c]).
+Definition ch_orders : tree :=
+  Dict true [([111;114;100;101;114;115]%N, Lst true
+    [Dict true [([105;100]%N, ch_str1 49); ([105;116;101;109;115]%N, Lst true [Dict true [([107;49]%N, ch_str1 65); ([102]%N, ch_str1 49)]])];
+     Dict true [([105;100]%N, ch_str1 50); ([105;116;101;109;115]%N, Lst true [Dict true [([107;49]%N, ch_str1 66); ([102]%N, ch_str1 51)]])]])].
+(* orders[id=2]/items[k1=B]/f *)
+Definition ch_xp : pstr :=
+  [111;114;100;101;114;115]%N ++ [91;105;100;61;50;93;47]%N ++ [105;116;101;109;115]%N ++ [91;107;49;61;66;93;47;102]%N.
+Theorem chained_example :
+  dict_get_pub (fuel_for ch_orders ch_xp) ch_orders ch_xp = Ok (ch_orders, LVal (Lst true [Lst true [Leaf (SStr [51%N])]])).
+Proof. vm_compute. reflexivity. Qed.
